@@ -190,7 +190,7 @@ def run_prop(prop, tier, seed):
         rep.cov["vacuity_guards"] = {"no fork handlers": c.run_tlc("TsrmMC.tla", "TsrmDefect_nofork_deadlock.cfg", expect_violation=True).violated,
                                      "child keeps inherited lock": c.run_tlc("TsrmMC.tla", "TsrmDefect_keeplock_deadlock.cfg", expect_violation=True).violated}
         # the last plan is sampled with TLC -simulate (its state graph is too large to enumerate): two threads inside calls when the third forks
-        plans = [("T2", 2, 1, 1, "Fork1", None), ("T3", 3, 1, 1, "Fork1", 1500), ("T3", 3, 1, 2, "Fork1", 500, 150)]
+        plans = [("T2", 2, 1, 1, "Fork1", None), ("T3", 3, 1, 1, "Fork1", 1500), ("T3", 3, 1, 2, "Fork1", 500, 400)]
         if tier == "thorough":
             plans = [("T2", 2, 1, 2, "Fork1", 12000), ("T3", 3, 1, 1, "Fork1", None), ("T2", 2, 2, 1, "Fork1", 6000), ("T3", 3, 1, 2, "Fork1", 12000, 1500), ("T4", 4, 1, 3, "Fork1", 6000, 800)]
     total, nontriv, drifts = 0, 0, 0
@@ -199,7 +199,7 @@ def run_prop(prop, tier, seed):
         (tname, nt, nc, k, forkers, cap), sim = plan[:6], (plan[6] if len(plan) > 6 else None)
         cfg = gen_cfg("TsrmGen_%s_%d_%d_%s" % (tname, nc, k, forkers), tname, nc, k, forkers, minlist=(2 if sim and prop == "C10" else 0))
         if sim:
-            g = c.run_tlc("TsrmMC.tla", cfg, env={"SECTIONS_FILE": secfile}, heap="8g", timeout=2400, simulate=sim, depth=400, seed=seed, workers=8)
+            g = c.run_tlc("TsrmMC.tla", cfg, env={"SECTIONS_FILE": secfile}, heap="8g", timeout=2400, simulate=sim, depth=nt * nc * 60 + 60, seed=seed, workers=8)
         else:
             g = c.run_tlc("TsrmMC.tla", cfg, env={"SECTIONS_FILE": secfile}, heap="24g", timeout=2400)
         try:
